@@ -621,6 +621,8 @@ class Interp:
         self.ctor_info = {}
         self.round = 0
         self.why = []
+        self.rec_hits = set()
+        self.ctor_memo = {}
         self.call_depth = 0
         self.ev_store = {}
         self.caught_tbl = {}
@@ -634,6 +636,9 @@ class Interp:
         self.reached = set()
         self.reached_nodes = set()
         self.binding_atoms = set()
+        self._mro_cache, self._fm_cache, self._sub_cache = {}, {}, {}
+        self._ex = {}
+        self.in_module_init = True
         self._index(tree, '', None)
         self.module = Frame(self, '<module>', tree, None, 0)
         self.frames[0] = self.module
@@ -685,6 +690,14 @@ class Interp:
         return s
 
     def mro(self, cname):
+        if not self.in_module_init:
+            m = self._mro_cache.get(cname)
+            if m is None:
+                m = self._mro_cache[cname] = self._mro(cname)
+            return m
+        return self._mro(cname)
+
+    def _mro(self, cname):
         out, seen = [], set()
 
         def go(c):
@@ -702,6 +715,15 @@ class Interp:
     def is_subclass(self, cname, base):
         if cname == base:
             return True
+        if not self.in_module_init:
+            k = (cname, base)
+            r = self._sub_cache.get(k)
+            if r is None:
+                r = self._sub_cache[k] = self._is_subclass(cname, base)
+            return r
+        return self._is_subclass(cname, base)
+
+    def _is_subclass(self, cname, base):
         for c in self.mro(cname):
             if c == base:
                 return True
@@ -719,6 +741,15 @@ class Interp:
         return self.is_subclass(cname, 'BaseException')
 
     def find_method(self, cname, name, after=None):
+        if not self.in_module_init:
+            k = (cname, name, after)
+            r = self._fm_cache.get(k)
+            if r is None:
+                r = self._fm_cache[k] = self._find_method(cname, name, after)
+            return r
+        return self._find_method(cname, name, after)
+
+    def _find_method(self, cname, name, after=None):
         m = self.mro(cname)
         if after is not None:
             if after in m:
@@ -1794,9 +1825,12 @@ class Interp:
 
     # -- expressions --------------------------------------------------------------------------------------------------------
     def eval(self, fr, node):
-        m = getattr(self, 'ex_' + type(node).__name__, None)
+        m = self._ex.get(type(node))
         if m is None:
-            raise self.err(node, 'expression {} is not modelled'.format(type(node).__name__))
+            m = getattr(self, 'ex_' + type(node).__name__, None)
+            if m is None:
+                raise self.err(node, 'expression {} is not modelled'.format(type(node).__name__))
+            self._ex[type(node)] = m
         v = m(fr, node)
         if not v:
             raise Unreachable()
@@ -3194,10 +3228,20 @@ class Interp:
         summ = None
         if key in self.active:
             summ = self.summaries.get(key) or Summary()
+            self.rec_hits.add(key)
         elif memo and key in self.done:
             summ = self.summaries[key]
         else:
-            summ = self.run_function(fr, fnatom, fnnode, parent, pfid, key, bound, syms, tin, facts_in, self_val, node, memo)
+            for _ in range(8):
+                before = self.summaries.get(key)
+                before = before.snapshot() if before is not None else None
+                self.rec_hits.discard(key)
+                summ = self.run_function(fr, fnatom, fnnode, parent, pfid, key, bound, syms, tin, facts_in, self_val, node, memo)
+                if not memo or key not in self.rec_hits or summ.snapshot() == before:
+                    break
+                # the function called itself: iterate here until its summary is stable instead of waiting for another round
+                self.done.discard(key)
+                fr.pending = [r for r in fr.pending]
         valid = tin
 
         def f(t):
@@ -3322,14 +3366,31 @@ class Interp:
         self.ctor_info[n] = {'stores': [], 'site': node, 'qual': fr.qual}
         selfatom = ('obj', cname, ('ctor', n))
         c, q = self.find_method(cname, '__init__')
+        mkey = (cname, tuple(args.pos), tuple(sorted(args.kw.items())), args.star, args.kwstar, tuple(sorted(args.syms.items(), key=str)))
+        cached = self.ctor_memo.get(mkey)
         try:
-            if q is not None:
-                before = len(fr.pending)
-                r = self.call_user(fr, ('fn', q), args, node, av(selfatom))
-                if not r:
+            if cached is not None:
+                ok, cstores, cexcs = cached
+                for (attr, val, snode) in cstores:
+                    self.store_attr(fr, av(selfatom), attr, val, snode)
+                for rec in cexcs:
+                    fr.pending.append(ExcRec(rec.atom, rec.origin, ((fr.qual, node),) + rec.chain[1:], rec.converted_from))
+                if not ok:
                     return BOT
-            elif args.pos or args.kw:
-                if not self.is_exception_class(cname):
+                if q is not None:
+                    self.reached.add(q)
+            else:
+                before = len(fr.pending)
+                ok = True
+                if q is not None:
+                    r = self.call_user(fr, ('fn', q), args, node, av(selfatom))
+                    if not r:
+                        ok = False
+                elif args.pos or args.kw:
+                    if not self.is_exception_class(cname):
+                        ok = False
+                self.ctor_memo[mkey] = (ok, list(self.ctor_info[n]['stores']), list(fr.pending[before:]))
+                if not ok:
                     return BOT
             stores = self.ctor_info[n]['stores']
         finally:
@@ -4102,6 +4163,7 @@ class Interp:
             self.why = []
             self.done = set()
             self.active = {}
+            self.ctor_memo = {}
             results = []
             for args in make_args():
                 top = Frame(self, '<entry>', None, None, self.fid_for(('entry',)))
